@@ -725,13 +725,15 @@ func (g *htmlGen) item(head bool) (HTMLNode, []HTMLPlanted) {
 		var val string
 		if outer == "" {
 			u := g.cssURL(&p, "", true, true)
-			val = g.pick("sdecl0", []string{"background:%s", "background-image:%s;color:red", "list-style-image:%s"})
+			val = g.pick("sdecl0", []string{"background:%s", "background-image:%s;color:red", "list-style-image:%s", "background:%s;color:rgb(1,2,3)", "background-image:%s;transform:rotate(3deg)"})
 			val = fmt.Sprintf(val, u)
 		} else {
 			u := g.cssURL(&p, outer, true, false)
 			val = g.pick("sdecl", []string{
 				"background: %s", "background-image: %s; color: red", "color: rgb(1, 2, 3); background:%s no-repeat",
 				"width: calc(100px - 2px); background-image:%s;", "list-style: square %s", "background: %s center / cover no-repeat; height: 50vh",
+				// other parenthesised values AFTER the url(): the reference ends at its own closing parenthesis
+				"background: %s; color: rgb(10, 20, 30)", "background-image: %s; transform: rotate(3deg) scale(1.5)", "background: %s, linear-gradient(red, blue)",
 			})
 			val = fmt.Sprintf(val, u)
 		}
